@@ -1,6 +1,9 @@
 package sim
 
-import "sort"
+import (
+	"fmt"
+	"sort"
+)
 
 // CacheModel reconstructs, from what the kernel served and delivered, exactly
 // what each shared informer cache of the current process contains after every
@@ -17,14 +20,28 @@ type cacheChange struct {
 }
 
 type CacheModel struct {
-	log []cacheChange
+	log   []cacheChange
+	byRes map[string][]int // "inc|res" -> indices into log, in order
+}
+
+func (c *CacheModel) add(ch cacheChange) {
+	if c.byRes == nil {
+		c.byRes = map[string][]int{}
+	}
+	k := fmt.Sprintf("%d|%s", ch.Inc, ch.Res)
+	c.byRes[k] = append(c.byRes[k], len(c.log))
+	c.log = append(c.log, ch)
+}
+
+func (c *CacheModel) entries(inc int, res *Resource) []int {
+	return c.byRes[fmt.Sprintf("%d|%s", inc, res.Key())]
 }
 
 func (c *CacheModel) list(step, inc int, res *Resource, items []Object) {
-	c.log = append(c.log, cacheChange{Step: step, Inc: inc, Res: res.Key(), List: true})
+	c.add(cacheChange{Step: step, Inc: inc, Res: res.Key(), List: true})
 	for _, o := range items {
 		k := objKey{res.Key(), mstr(o, "namespace"), mstr(o, "name")}
-		c.log = append(c.log, cacheChange{Step: step, Inc: inc, Res: res.Key(), Key: k, Raw: canon(o)})
+		c.add(cacheChange{Step: step, Inc: inc, Res: res.Key(), Key: k, Raw: canon(o)})
 	}
 }
 
@@ -34,19 +51,16 @@ func (c *CacheModel) event(step, inc int, ev *Event) {
 	if ev.Type == "DELETED" {
 		ch.Raw = nil
 	}
-	c.log = append(c.log, ch)
+	c.add(ch)
 }
 
 // View returns the cache content of resource res in incarnation inc after step.
 func (c *CacheModel) View(inc int, res *Resource, step int) map[objKey][]byte {
 	out := map[objKey][]byte{}
-	for i := range c.log {
+	for _, i := range c.entries(inc, res) {
 		ch := &c.log[i]
 		if ch.Step > step {
 			break
-		}
-		if ch.Inc != inc || ch.Res != res.Key() {
-			continue
 		}
 		if ch.List {
 			out = map[objKey][]byte{}
@@ -67,13 +81,10 @@ func (c *CacheModel) Versions(inc int, res *Resource, ns, name string, from, to 
 	var cur []byte
 	var out [][]byte
 	started := false
-	for i := range c.log {
+	for _, i := range c.entries(inc, res) {
 		ch := &c.log[i]
 		if ch.Step > to {
 			break
-		}
-		if ch.Inc != inc || ch.Res != res.Key() {
-			continue
 		}
 		if ch.Step > from && !started {
 			started = true
